@@ -191,6 +191,8 @@ def run(ctx: Ctx):
         cases.append((f"cycle:{k}", rig.gen_cycle(rng)))
     for k in range(ctx.scale(120, 1500)):
         cases.append((f"load:{k}", rig.load_case(rng, ctx.scale(16, 40))))
+    for k in range(ctx.scale(100, 1500)):
+        cases.append((f"sess:{k}", rig.gen_sessions(rng)))
 
     workers = int(os.environ.get("C12_WORKERS", "0")) or max(1, min(14, (os.cpu_count() or 2) - 2))
     results = _run_impl_all([c for _, c in cases], workers)
@@ -246,8 +248,8 @@ def run(ctx: Ctx):
         i = _first_diff(lines, impl, model)
         if i < 0 and not oracle:
             agree += 1
-            if name.startswith(("pair", "scen")):
-                ctx.sample({"case": name, "lines": lines[:10], "answers": model[:10]}, cap=4)
+            if name.startswith(("pair", "scen", "cls:", "load", "cycle")):
+                ctx.sample({"case": name, "lines": lines[:10], "answers": model[:10]}, cap=8)
             continue
         if oracle:
             oracle_bad += 1
